@@ -497,12 +497,27 @@ class Gen:
             args = [a for a in ['ro', 'start', 'cur'] if a in tr4.free]
             self.exprs.append(('ftr_stop', args, 'Z', t4, 'bool',
                                ast.unparse(stops[0])))
-            brk = [st for st in rest[:rest.index(upd[0])]
+            before = rest[:rest.index(upd[0])]
+            brk = [st for st in before
                    if isinstance(st, ast.If) and len(st.body) == 1
                    and isinstance(st.body[0], ast.Break)]
             if len(brk) != 1:
                 raise Untranslatable("find_token_reverse: attempts break "
                                      "expected before the update")
+            # start-of-file stops BEFORE the attempts test: the empty-chunk
+            # test (on `chunk`) and the clipped-window test (on read_size)
+            early = [st for st in before[:before.index(brk[0])]
+                     if isinstance(st, ast.If)
+                     and found_offset(st, 'REACHED_EOF')
+                     and 'read_size' in {m.id for m in ast.walk(st.test)
+                                         if isinstance(m, ast.Name)}]
+            if len(early) != 1 or early[0].orelse:
+                raise Untranslatable("find_token_reverse: one clipped-window "
+                                     "stop expected before the attempts test")
+            tr5 = Tr(names={'read_size': 'rs'}, attrs={HZ: 'H'})
+            t5 = tr5.cond(early[0].test)
+            self.exprs.append(('ftr_clipped', ['rs', 'H'], 'Z', t5, 'bool',
+                               ast.unparse(early[0])))
         self.item('find_token_reverse arithmetic', ftr)
 
         def ft():
@@ -535,6 +550,16 @@ class Gen:
             t3, _ = tr3.expr(upd[0].value)
             self.exprs.append(('ft_next_cur', ['cur', 'n'], 'Z', t3, 'Z',
                                ast.unparse(upd[0])))
+            after_upd = lp.body[lp.body.index(upd[0]) + 1:]
+            short = [st for st in after_upd if isinstance(st, ast.If)
+                     and found_offset(st, 'REACHED_EOF') and not st.orelse]
+            if len(short) != 1:
+                raise Untranslatable("find_token: one short-read stop "
+                                     "expected after the cursor update")
+            tr4 = Tr(subst={'len(chunk)': ('n', 'Z', ['n'])}, attrs={HZ: 'H'})
+            t4 = tr4.cond(short[0].test)
+            self.exprs.append(('ft_short', ['n', 'H'], 'Z', t4, 'bool',
+                               ast.unparse(short[0])))
             seeks = [n for n in f.body if isinstance(n, ast.Expr)
                      and isinstance(n.value, ast.Call)
                      and ast.unparse(n.value.func) == 'self.file.seek']
